@@ -115,6 +115,9 @@ def check(run):
         if fn.d.get('defaulted'):
             continue
         for a in q.field_accesses(fn, {P + '::from'}):
+            root_ = q.access_root(a.node)
+            if a.kind == 'assign' and is_node(root_) and root_['k'] == 'ref' and root_.get('dk') == 'local':
+                continue        # stamping the origin on a packet the function builds itself is no decision taken on the value
             users.setdefault(q.top_function(fx, fn).norm, (fn, a))
     for w, (fn, a) in sorted(users.items()):
         run.touch(fn)
